@@ -207,8 +207,10 @@ func runLib(cs c16Case) (out string, err error, snap fsx.Snap, usage bool) {
 			default:
 				return "", nil, fsx.Snapshot(j.Target), true
 			}
-		case "--massive", "-m":
+		case "--massive", "-m", "--massive=true":
 			massive = true
+		case "--massive=false", "--strict=false", "--dry-run=false":
+			// a boolean flag spelled out as false (what a script passes for --flag=$VAR) leaves the default
 		case "--massive-timeout", "--mt":
 			i++
 			massive = true
@@ -216,9 +218,9 @@ func runLib(cs c16Case) (out string, err error, snap fsx.Snap, usage bool) {
 			if strings.HasPrefix(cs.Args[i], "-") || cs.Args[i] == "0" || cs.Args[i] == "0s" {
 				return "", nil, fsx.Snapshot(j.Target), true
 			}
-		case "--dry-run", "-d":
+		case "--dry-run", "-d", "--dry-run=true":
 			dry = true
-		case "--strict":
+		case "--strict", "--strict=true":
 			strict = true
 		case "-e", "--extension":
 			i++
@@ -298,7 +300,7 @@ func c16Judge(c *rep.Ctx, cs c16Case) {
 	size := len(cs.Args) + len(cs.DocName)
 	massive := false
 	for _, a := range cs.Args {
-		if a == "--massive" || a == "-m" || a == "--massive-timeout" || a == "--mt" {
+		if a == "--massive" || a == "--massive=true" || a == "-m" || a == "--massive-timeout" || a == "--mt" {
 			massive = true
 		}
 	}
@@ -496,6 +498,27 @@ func init() {
 				add(c16Case{Cmd: "verify", Doc: d.doc, DocName: d.name, Args: args, Input: "stdin", Extra: "empty-first", Stdout: "pipe", Target: "dir", Pre: map[string]byte{"a/b": 'd', "a/c.go": 'f', "a/extra": 'd'}})
 				add(c16Case{Cmd: "verify", Doc: d.doc, DocName: d.name, Args: args, Input: "fifo", Stdout: "pipe", Target: "dir", Pre: map[string]byte{"a/b": 'd', "a/c.go": 'f'}})
 			}
+		}
+		// boolean flags spelled out with a value
+		for _, d := range docs[:3] {
+			for _, pre := range []map[string]byte{{"a/b": 'd', "a/c.go": 'f'}, {"a/b": 'd', "a/c.go": 'f', "a/extra": 'd'}, nil} {
+				for _, fl := range []string{"--strict=false", "--strict=true"} {
+					add(c16Case{Cmd: "verify", Doc: d.doc, DocName: d.name, Args: []string{fl}, Input: "stdin", Stdout: "pipe", Target: "dir", Pre: pre})
+				}
+			}
+			for _, fl := range []string{"--dry-run=false", "--dry-run=true"} {
+				add(c16Case{Cmd: "mkdir", Doc: d.doc, DocName: d.name, Args: []string{fl, "-e", ".go"}, Input: "stdin", Stdout: "pipe", Target: "dir"})
+			}
+			for _, fl := range []string{"--massive=false", "--massive=true"} {
+				add(c16Case{Cmd: "output", Doc: d.doc, DocName: d.name, Args: []string{fl}, Input: "file", Stdout: "pipe"})
+			}
+		}
+		// names with an escape character (the dry-run report goes through the colour machinery)
+		for _, so := range []string{"pipe", "full"} {
+			for _, args := range [][]string{{"--dry-run"}, {"--dry-run", "-e", "z"}, nil} {
+				add(c16Case{Cmd: "mkdir", Doc: "- x\x1b[1mbold\n  - y\x1bz\n  - \x1b[31m\n", DocName: "escape-characters-in-names", Args: args, Input: "stdin", Stdout: so, Target: "dir"})
+			}
+			add(c16Case{Cmd: "output", Doc: "- x\x1b[1mbold\n  - y\x1bz\n", DocName: "escape-characters-in-names", Input: "stdin", Stdout: so})
 		}
 		// standard input is the null device (cron, CI, "</dev/null", a parent that passes no stdin): an empty document
 		for _, in := range []string{"devnull", "nostdin"} {
